@@ -98,6 +98,21 @@ def r03_1(run):
         run.ob('R03.1', cl, cl.node, 'queue emptied on loss', 'empty_queue' in tags or 'drain' in tags, slot='queue-emptied',
                message='connectionLost leaves the failed commands in self.commands: a later submission re-fires '
                        'their Deferreds (AlreadyCalledError) and the in-flight slot stays occupied')
+    # re-entrancy: errbacks run user code, which may submit commands; the slot and the
+    # queue must already be in their post-loss state when the first errback runs
+    resets = dict((tag, g.nodes_where(lambda n, tag=tag: any(tag in (cls(a) if isinstance(cls(a), list) else [cls(a)])
+                                                            for a in node_asts(n))))
+                  for tag in ('reset_command', 'reset_defer', 'empty_queue'))
+    for lp, dname, errs in loops:
+        for e in errs:
+            for en in g.nodes_containing(e):
+                for tag, nodes in resets.items():
+                    if not nodes:
+                        continue
+                    ok = any(g.dominates(rn, en) for rn in nodes)
+                    run.ob('R03.1', cl, e, 'protocol state is reset before the first errback runs (%s)' % tag, ok, slot='reset-before-errback:' + tag,
+                           message='connectionLost errbacks commands before %s: a command submitted from an errback '
+                                   'is queued behind the stale state and then dropped (never fires)' % tag.replace('_', ' '))
     # the fired value is a Failure(TorDisconnectError)
     for c in calls_in(cl, 'self._when_disconnected.fire'):
         txt = src(c.args[0]) if c.args else ''
